@@ -3,6 +3,7 @@ package an
 import (
 	"fmt"
 	"go/token"
+	"go/types"
 	"sort"
 	"strings"
 
@@ -61,7 +62,16 @@ func PathConds(b *ssa.BasicBlock) ([][]Lit, bool) {
 
 // evalLit evaluates a literal under env (term description -> value). Returns (value,
 // known).  Atoms listed in assume (normalised, positive form) are taken as true.
+// curAssume: the assumptions of the comparison in progress, visible to nested evaluation of
+// private predicates (single-threaded).
+var curAssume map[string]bool
+
 func evalLit(l Lit, env map[string]int64, assume map[string]bool) (bool, bool) {
+	if assume != nil {
+		saved := curAssume
+		curAssume = assume
+		defer func() { curAssume = saved }()
+	}
 	pos := NormAtom(l.Cond, true)
 	neg := NormAtom(l.Cond, false)
 	for a := range assume {
@@ -127,6 +137,36 @@ func evalBool(v ssa.Value, env map[string]int64) (bool, bool) {
 		return x != 0, true
 	}
 	switch x := v.(type) {
+	case *ssa.Call:
+		// a private bool predicate: evaluate the conditions under which it returns true
+		if dnf, subst, ok := boolHelperDNF(x); ok {
+			saved := descSubst
+			descSubst = subst
+			defer func() { descSubst = saved }()
+			unknown := false
+			for _, conj := range dnf {
+				all := true
+				for _, l := range conj {
+					val, known := evalLit(l, env, curAssume)
+					if !known {
+						unknown = true
+						all = false
+						break
+					}
+					if !val {
+						all = false
+						break
+					}
+				}
+				if all {
+					return true, true
+				}
+			}
+			if unknown {
+				return false, false
+			}
+			return false, true
+		}
 	case *ssa.UnOp:
 		if x.Op == token.NOT {
 			b, ok := evalBool(x.X, env)
@@ -314,4 +354,89 @@ func evalReturnsNil(call *ssa.Call, env map[string]int64) (bool, bool) {
 		}
 	}
 	return false, false
+}
+
+// boolHelperDNF: for a call to a private, side-effect-free bool function of the same
+// package (`func (c *context) noPeers() bool { return c.failNoPeers && len(c.s.pipes) == 0 }`),
+// the conditions under which it returns true, as a DNF over its own branch conditions and
+// returned comparisons.  The caller must read the literals with descSubst set to subst.
+func boolHelperDNF(call *ssa.Call) (dnf [][]Lit, subst map[*ssa.Parameter]string, ok bool) {
+	sc := call.Call.StaticCallee()
+	if sc == nil || sc.Blocks == nil || sc.Pkg != call.Parent().Pkg || sc.Signature.Results().Len() != 1 {
+		return nil, nil, false
+	}
+	if b, isB := sc.Signature.Results().At(0).Type().Underlying().(*types.Basic); !isB || b.Kind() != types.Bool {
+		return nil, nil, false
+	}
+	pure := true
+	EachInstr(sc, func(in ssa.Instruction) {
+		switch x := in.(type) {
+		case *ssa.Store:
+			if _, local := x.Addr.(*ssa.Alloc); !local {
+				pure = false
+			}
+		case *ssa.Send, *ssa.Go, *ssa.MapUpdate, *ssa.Select:
+			pure = false
+		case ssa.CallInstruction:
+			if classifyLockCall(x.Common()) == nil {
+				if _, isB := x.Common().Value.(*ssa.Builtin); !isB {
+					pure = false
+				}
+			}
+		}
+	})
+	if !pure {
+		return nil, nil, false
+	}
+	subst = map[*ssa.Parameter]string{}
+	for k, v := range descSubst {
+		subst[k] = v
+	}
+	for i, par := range sc.Params {
+		if i < len(call.Call.Args) {
+			subst[par] = Desc(call.Call.Args[i])
+		}
+	}
+	for _, b := range sc.Blocks {
+		ret, isRet := b.Instrs[len(b.Instrs)-1].(*ssa.Return)
+		if !isRet || len(ret.Results) != 1 || (sc.Recover != nil && b == sc.Recover) {
+			continue
+		}
+		rv := resolveSpill(ret.Results[0], ret)
+		// per predecessor when the result is a phi of this block (short-circuit && / ||)
+		type alt struct {
+			blk *ssa.BasicBlock
+			val ssa.Value
+		}
+		var alts []alt
+		if ph, isPhi := rv.(*ssa.Phi); isPhi && ph.Block() == b {
+			for i, e := range ph.Edges {
+				alts = append(alts, alt{b.Preds[i], e})
+			}
+		} else {
+			alts = append(alts, alt{b, rv})
+		}
+		for _, a := range alts {
+			paths, okp := PathConds(a.blk)
+			if !okp {
+				return nil, nil, false
+			}
+			for _, conj := range paths {
+				if a.blk != b {
+					// the edge a.blk -> b must be the one taken
+					if iff, isIf := a.blk.Instrs[len(a.blk.Instrs)-1].(*ssa.If); isIf && a.blk.Succs[0] != a.blk.Succs[1] {
+						conj = append(append([]Lit{}, conj...), Lit{iff.Cond, a.blk.Succs[0] == b})
+					}
+				}
+				if c, isC := a.val.(*ssa.Const); isC {
+					if c.Value != nil && c.Value.ExactString() == "true" {
+						dnf = append(dnf, conj)
+					}
+					continue
+				}
+				dnf = append(dnf, append(append([]Lit{}, conj...), Lit{a.val, true}))
+			}
+		}
+	}
+	return dnf, subst, true
 }
